@@ -101,4 +101,29 @@ theorem placeholder_rejected_at_finalize (st : State) (hl : st.locked = false) (
   C12.finalize_rejects_invalid st hl
     (C12.unknown_reference_is_invalid st _ h (by simp [State.isUnknownRef]))
 
+/-- "Known" is judged statement by statement, against the registry as it is when the statement is reached:
+    after an import whose module registers configurables, the rest of the text is processed with the enlarged
+    registry — whatever was decided about a name before the import (skipped binding, placeholder) is not
+    remembered. -/
+theorem known_is_judged_when_reached (st st' : State) (file : Option String) (skip : SkipSpec) (m : String)
+    (line : Nat) (regs : List State.RegReq) (rest : List Stmt) (h : registerAll st regs = (st', none)) :
+    (applyStmts st file skip (.imp m true line regs :: rest)).st = (applyStmts st' file skip rest).st ∧
+    (applyStmts st file skip (.imp m true line regs :: rest)).failure = (applyStmts st' file skip rest).failure := by
+  simp [applyStmts, applyStmt, h]
+
+/-- … so the very reference that became a placeholder before the import is a real reference after it. -/
+theorem reference_known_after_import (st st' : State) (skip : SkipSpec) (scopes : List String) (spelled full : Sel)
+    (ev : Bool) (e : Entry) (regs : List State.RegReq) (_h : registerAll st regs = (st', none))
+    (hbefore : shouldSkip st spelled skip = true)
+    (hafter : st'.registry.getMatch spelled = .one full e) :
+    resolveRaw st skip (.ref scopes spelled ev) = .ok (.unknownRef (".".intercalate spelled) ev) ∧
+    resolveRaw st' skip (.ref scopes spelled ev) = .ok (.ref scopes full ev) := by
+  refine ⟨by simp [resolveRaw, hbefore], ?_⟩
+  have hk : Known st' spelled := by
+    unfold Known
+    intro hnil
+    simp [SelMap.getMatch, hnil] at hafter
+  have hns := known_never_skipped st' spelled skip hk
+  simp [resolveRaw, hns, hafter]
+
 end Gin.C15
